@@ -187,6 +187,26 @@ def replay_judge(scn, out, v):
             want = {'Create': {'uuid'}, 'Delete': {'uuid'}, 'Update': {'uuid', 'property', 'value', 'timestamp'}}.get(k)
             if want is None or not isinstance(body, dict) or set(body.keys()) != want:
                 probs.append({'op': op})
+    # ... and, in order, exactly the committed operations (minus undo points), each in its documented form
+    expected = []
+    for st in scn.get('steps', []):
+        for o in st.get('ops', []) if 'commit' in st else []:
+            if o['op'] == 'undopoint':
+                continue
+            h = '%032x' % o['uuid']
+            u = '-'.join([h[:8], h[8:12], h[12:16], h[16:20], h[20:]])
+            if o['op'] == 'create':
+                expected.append({'Create': {'uuid': u}})
+            elif o['op'] == 'delete':
+                expected.append({'Delete': {'uuid': u}})
+            else:
+                expected.append({'Update': {'uuid': u, 'property': o['prop'], 'value': o.get('value'), 'timestamp': {'ts': o.get('ts')}}})
+    real = []
+    for ver in out['server']['versions']:
+        d = _norm_real(ver['doc'])
+        real.extend(d.get('operations', []) if isinstance(d, dict) else [])
+    if not probs and real != expected:
+        probs.append({'sent': real[:6], 'committed': expected[:6]})
     return bool(probs), probs[:3]
 
 
